@@ -333,6 +333,34 @@ impl Runner {
         if self.rep.evaluations % 30011 == 1 {
             self.rep.sample(json!({"request": req, "impl": ans}));
         }
+        if s.group.is_some() && !s.shared_masked {
+            // StructReg entry: the model additionally gets the WHOLE StructReg (address, length,
+            // byte order of the StructReg element; LSB/MSB/Bit and Sign of every entry in document
+            // order) and performs the entry -> MaskedIntReg expansion itself
+            // (Model/BitMaskStruct.lean `intoMaskedIntRegs`); same expected answer.
+            let specs = &self.w.specs;
+            let same = |t: &Spec| t.group == s.group && !t.shared_masked;
+            let mut lo = idx;
+            while lo > 0 && same(&specs[lo - 1]) {
+                lo -= 1;
+            }
+            let mut hi = idx + 1;
+            while hi < specs.len() && same(&specs[hi]) {
+                hi += 1;
+            }
+            let head = &specs[lo];
+            let ents = specs[lo..hi]
+                .iter()
+                .map(|t| format!("{}:{}:{}:{}", if t.bit_form { "b" } else { "r" }, t.lsb, t.msb, if t.signed { "s" } else { "u" }))
+                .collect::<Vec<_>>()
+                .join(",");
+            let sreq = format!(
+                "c02 s{opname} {} {} {} {} {} {} {} {ents} {arg}",
+                profile(), head.len, if head.be { "be" } else { "le" }, head.addr, before.base, hex(&before.img), idx - lo
+            );
+            self.rep.count("struct-expansion-by-model");
+            self.rep.expect(sreq, ans.clone());
+        }
         self.rep.expect(req, ans);
         if self.rep.evaluations % 200_000 == 0 {
             let c = self.camdrv.clone();
